@@ -1,0 +1,82 @@
+//! Verification hooks (compiled only with `--cfg serde_saphyr_verif`).
+//!
+//! A thread-local, optional sink receives one [`VerifEvent`] per step of the live
+//! event pump. With the cfg flag off this module does not exist and the call
+//! sites compile to nothing.
+
+use std::cell::RefCell;
+
+/// Where a pumped event came from.
+#[derive(Clone, Copy, Debug, PartialEq, Eq, Hash)]
+pub enum Source {
+    /// Pulled from the underlying parser.
+    Parser,
+    /// Served from a recorded anchor buffer (alias replay).
+    Replay,
+    /// Synthesized by the event source (empty document, recursive alias placeholder).
+    Synth,
+}
+
+/// Kind of a pumped event.
+#[derive(Clone, Copy, Debug, PartialEq, Eq, Hash)]
+pub enum Kind {
+    Scalar,
+    SeqStart,
+    SeqEnd,
+    MapStart,
+    MapEnd,
+}
+
+/// One observation of the live event pump.
+#[derive(Clone, Copy, Debug, PartialEq, Eq, Hash)]
+pub enum VerifEvent {
+    /// An event is handed to the deserializer.
+    Pump {
+        kind: Kind,
+        source: Source,
+        /// Anchor id carried by the event (0 if none).
+        anchor: usize,
+        /// Scalar text length in bytes (0 for non-scalars).
+        scalar_len: usize,
+        /// Live inject frames at the moment of the pump (including exhausted ones).
+        inject_depth: usize,
+        /// Open recording frames at the moment of the pump.
+        rec_depth: usize,
+    },
+    /// An alias was accepted and its buffer pushed for replay.
+    AliasPush {
+        anchor_id: usize,
+        buf_len: usize,
+        /// Inject stack depth after the push.
+        depth: usize,
+    },
+    /// An exhausted inject frame was popped.
+    InjectPop,
+    /// Per-document state was reset.
+    DocReset,
+    /// `finish()` was called.
+    Finish,
+}
+
+type Sink = Box<dyn FnMut(&VerifEvent)>;
+
+thread_local! {
+    static SINK: RefCell<Option<Sink>> = const { RefCell::new(None) };
+}
+
+/// Install a sink for the current thread, returning the previous one.
+pub fn set_sink(sink: Option<Sink>) -> Option<Sink> {
+    SINK.with(|s| std::mem::replace(&mut *s.borrow_mut(), sink))
+}
+
+#[inline]
+pub(crate) fn emit(ev: VerifEvent) {
+    SINK.with(|s| {
+        // A sink that itself drives the library re-enters here; skip instead of panicking.
+        if let Ok(mut guard) = s.try_borrow_mut()
+            && let Some(sink) = guard.as_mut()
+        {
+            sink(&ev);
+        }
+    });
+}
